@@ -163,7 +163,9 @@ Definition model_602 (a : list (list N)) : list (list N) :=
   let reason := arg 1 a in
   (* the state when the session ends: the backlog fills the channel, the rest of the tasks are parked *)
   let ids := ids_from count 0 in
-  let backlog := mkkst (firstn (cap_of k) ids) (skipn (cap_of k) ids) [] in
+  let stalled := argn 0 4 a =? 1 in
+  (* stalled streams sit in their tasks, reading the preamble; complete ones fill the channel, the rest is parked *)
+  let backlog := if stalled then mkkst [] [] ids else mkkst (firstn (cap_of k) ids) (skipn (cap_of k) ids) [] in
   let s0 := with_k k (mkcst (mkkst [] [] []) (mkkst [] [] []) true) backlog in
   let s := worker_exit s0 in
   let err := match with_driver_error (Runner.DAppClosed code reason) None with
@@ -214,5 +216,6 @@ Definition chk (c : case) : bool :=
   let '(f, a, o) := c in
   if f =? 681 then chk_681 o
   else if f =? 673 then chk_673 a o
+  else if f =? 622 then (match o with [2] :: _ => true | _ => lists_eqb o [[1; argn 0 1 a; argn 0 2 a; argn 0 1 a + argn 0 2 a]] end)
   else if f =? 602 then (match o with [2] :: _ => true | _ => lists_eqb (model_602 a) o end)
   else lists_eqb (model f a) o.
